@@ -269,6 +269,12 @@ func c02Values(tier string) (names []string, vals map[string]interface{}) {
 		add("s:"+n, strs[n])
 		add("k:"+n, map[string]interface{}{strs[n]: 1})
 	}
+	// texts that look like JSON escapes (a literal backslash followed by what an encoder or a post-processing
+	// step might take for an escape sequence), and the characters encoding/json escapes on its own
+	for i, t := range []string{`\u003c`, `\u003e`, `\u0026`, `\u0000`, `\u2028`, `\n`, `\"`, `\\`, `\/`, `\x00`, `a\u003cb\u003e`, `<`, `>`, `&`, "\u2029", `%s%d`, `\u00`, `\`+"\x00", `"\u003c"`, `\\u003c`} {
+		add(fmt.Sprintf("s:esc%d", i), t)
+		add(fmt.Sprintf("k:esc%d", i), map[string]interface{}{t: t})
+	}
 	for c := 1; c < 0x20; c++ {
 		add(fmt.Sprintf("s:c%02x", c), string(rune(c)))
 	}
